@@ -26,7 +26,7 @@ from vlib.rtc import fn
 common.setup_grist_path()
 import identifiers                                    # noqa: E402  real module
 
-ASCII_IDENT = re.compile(r"^[A-Za-z][A-Za-z0-9_]*$")
+ASCII_IDENT = re.compile(r"[A-Za-z][A-Za-z0-9_]*")      # always used with fullmatch
 KELVIN = "K"
 ALPHABET = ["a", "A", "1", "_", " ", "é", "ß", KELVIN, "-", "if", "é"]
 
@@ -42,7 +42,7 @@ def ci_equal(a, b):
 
 
 def already_valid(ident, table):
-  return (isinstance(ident, str) and ASCII_IDENT.match(ident) is not None and
+  return (isinstance(ident, str) and ASCII_IDENT.fullmatch(ident) is not None and
           not keyword.iskeyword(ident) and (not table or ident[0].isupper()))
 
 
@@ -51,7 +51,7 @@ def check_one(ident, avoid, result, table):
   fails = []
   if type(result) is not str:
     return [("C21.valid_identifier", "result %r is not a str" % (result,))]
-  if not (result.isidentifier() and ASCII_IDENT.match(result)):
+  if not (result.isidentifier() and ASCII_IDENT.fullmatch(result)):
     fails.append(("C21.valid_identifier", "%r is not an (ASCII) Python identifier" % result))
   if keyword.iskeyword(result):
     fails.append(("C21.not_keyword", "%r is a Python keyword" % result))
@@ -80,7 +80,7 @@ def _describe(ident):
   if keyword.iskeyword(ident) or keyword.iskeyword(ident.lower()) or keyword.iskeyword(ident.capitalize()):
     k.append("keyword-like")
   if ident[:1].isdigit() or ident[:1] == "_": k.append("bad-start")
-  if ASCII_IDENT.match(ident): k.append("ascii-ident")
+  if ASCII_IDENT.fullmatch(ident): k.append("ascii-ident")
   return "+".join(k) or "other"
 
 
@@ -376,10 +376,22 @@ class IdentMonitor(_monitor_base()):
       for i, cid in enumerate(cids):
         others = [x for j, x in enumerate(cids) if j != i and isinstance(x, str)] + ["id"]
         for c, d in check_one(None, others, cid, False):
-          out.append((c, {"what": "colId", "table": t["tableId"], "id": cid, "why": d, "all": cids}))
+          # is the clashing id a formula column that has same-named sister columns in other summary
+          # tables of the same source table (those are renamed together)?
+          sister = False
+          src = t.get("summarySourceTable")
+          if src and c == "C21.differs_from_existing_ci":
+            sibs = [x["id"] for x in tables if x.get("summarySourceTable") == src and x["id"] != t["id"]]
+            clash = [x for x in cids if isinstance(x, str) and ci_equal(x, cid)]
+            sister = any(cc["parentId"] in sibs and cc["isFormula"] and cc["colId"] in clash
+                         for cc in columns)
+          out.append((c, {"what": "colId", "table": t["tableId"], "id": cid, "why": d, "all": cids,
+                          "summary_table": bool(src), "sister_formula_column": sister}))
     return out[:1]
 
   def classify(self, clause, detail, bundle, history):
+    if detail.get("summary_table") and detail.get("sister_formula_column"):
+      return "engine:colId:summary-sister-column-renamed-onto-sibling-table-id"
     return "engine:%s:%s" % (detail.get("what"), clause.split(".", 1)[1])
 
   def nontrivial(self, st, bundle, group, exc):
